@@ -411,6 +411,12 @@ MUTANTS = [
     Mutant("C19", "proxy-hash-by-identity", "C19-R1", C, "Proxy.__hash__",
            lambda f, t: replace_expr(f, lambda e: u(e) == "hash(self._pyroUri)", "hash(id(self))")),
     # ---- additions (round-2 rules and own extensions)
+    Mutant("C01", "marshal-dumpsCall-kwargs-none-dereferenced", "C01-R9", SER, "MarshalSerializer.dumpsCall",
+           lambda f, t: replace_expr(f, lambda e: u(e) == "kwargs or {}", "kwargs"), also=("C11",)),
+    Mutant("C01", "serpent-dumpsCall-kwargs-len", "C01-R9", SER, "SerpentSerializer.dumpsCall",
+           lambda f, t: f.body.insert(0, stmts("if len(kwargs) > 255:\n    raise ValueError('too many keyword arguments')")[0]), also=("C11",)),
+    Mutant("C01", "msgpack-loadsCall-kwargs-items-unguarded", "C01-R9", SER, "MsgpackSerializer.loadsCall",
+           lambda f, t: replace_expr(f, lambda e: u(e) == "self.recreate_classes(kwargs)", "self.recreate_classes({str(k): v for k, v in kwargs.items()})")),
     Mutant("C01", "marshal-call-envelope-swapped", "C01-R7", SER, "MarshalSerializer.dumpsCall",
            lambda f, t: replace_expr(f, lambda e: u(e) == "(obj, method, vargs, kwargs)", "(obj, method, kwargs, vargs)")),
     Mutant("C01", "json-call-envelope-key-mismatch", "C01-R7", SER, "JsonSerializer.loadsCall",
